@@ -483,7 +483,7 @@ class Array:
                 if self._datapath.stat().st_size != array.nbytes:
                     raise OSError(f"could not write all data to "
                                   f"'{self._datapath}'")
-            except Exception:
+            except BaseException:
                 os.truncate(self._datapath, 0)  # array remains empty
                 raise
             self._update_len(lenincrease=array.shape[0])
@@ -493,7 +493,7 @@ class Array:
             try:
                 for array in arrayiterable:
                     lenincrease += self._append(array=array, fd=fd)
-            except Exception as exception:
+            except BaseException as exception:  # also KeyboardInterrupt
                 if fd.closed:
                     fd = open(file=self._datapath, mode=self._accessmode)
                 fd.flush()
@@ -504,6 +504,8 @@ class Array:
                     f"succeed. Shape of array was {oldshape} and is now " \
                     f"{self._shape} after an increase in length " \
                     f"(along first dimension) of {lenincrease}."
+                if not isinstance(exception, Exception):
+                    raise  # the array has been repaired, pass it on as is
                 raise AppendDataError(s)
         self._update_len(lenincrease=lenincrease)
 
